@@ -581,7 +581,7 @@ pub fn main(ctx: &Ctx) {
     run_committed_replays(ctx, &Eval);
     run_committed_replays(ctx, &Hist);
     run_exhaustive(ctx);
-    run_pbt(ctx, &Hist, ctx.tier.pick(3_000, 80_000));
+    run_pbt(ctx, &Hist, ctx.tier.pick(100_000, 2_000_000));
 }
 
 pub fn replay(ctx: &Ctx, v: &serde_json::Value) -> Option<i32> {
